@@ -118,7 +118,7 @@ Definition rfa_match_x (tol : Qc) (m : res (list Qc * list Qc)) (ox : list Qc) (
     def mk(self, rng, strategy, m=None, n=None, **over):
         m = m or rng.choice([2, 3, 3, 4, 5, 6, 8])
         n = n or rng.choice([2, 3, 4, 4, 5, 8, 8, 16])
-        c = {"strategy": strategy, "x": gens.sorted_x(rng, m), "y": gens.values(rng, m), "n": n, "int_x": False}
+        c = {"strategy": strategy, "x": gens.sorted_x(rng, m) if rng.random() < 0.85 else gens.loose_x(rng, m), "y": gens.values(rng, m), "n": n, "int_x": False}
         if strategy in ("linfixed", "linadapt", "expfixed", "expadapt"):
             if rng.random() < 0.4:
                 ni = max(2, int(n))
